@@ -154,7 +154,7 @@ def _neutralise_ctrl(case):
 TRIGGERS = {"control-character-inside-a-redirecting-url": (_ctrl_inside_redirect, _neutralise_ctrl)}
 
 STRUCT_T = list(T.IRRELEVANT)
-PLATFORM_SAFE = ["scheme", "userinfo", "default-port", "host-case", "tracking-items", "permute-query", "hex-case"]
+PLATFORM_SAFE = ["scheme", "userinfo", "default-port", "host-case", "tracking-items", "permute-query", "hex-case", "trailing-slash"]
 
 
 @st.composite
